@@ -44,6 +44,8 @@ type echoCfg struct {
 	writeCutAt        int64  // driver-side write cut at this stream offset on the data connection (-1 = none)
 	cutErrOnly        bool
 	stallAt           int64         // driver-side writes block from this stream offset on until the write deadline (0 = none)
+	stallAtBoundary   bool          // ... and the stall begins between two Write calls (on a frame boundary of a coalesced batch)
+	hugeAnswers       bool          // a few answers have a body of 1..4 MiB plus a bit, with other answers right behind them
 	writeTimeout      time.Duration // ClusterConfig.WriteTimeout (0 = gocql's default)
 	timeoutLimit      int64         // gocql.TimeoutLimit for this scenario (0 = gocql's default: off)
 	nodeCloseAfter    int           // node closes the data connection mid-frame after this many answers (-1 = none)
@@ -53,7 +55,8 @@ type echoCfg struct {
 	bigFrames         bool
 	padTokens         bool
 	hugeFrames        bool
-	pSplit            int // percent of answers that arrive in two pieces with a gap of 1.5 x the driver's timeout inside the body
+	lateUndecodable   bool // late answers carry the compression flag although no compression was negotiated (the frame cannot be decoded)
+	pSplit            int  // percent of answers that arrive in two pieces with a gap of 1.5 x the driver's timeout inside the body
 	seed              int64
 }
 
@@ -83,6 +86,8 @@ type echoResult struct {
 	conservation           []string
 	recvStalls             []string
 	splits                 int64
+	hugeSent               int64
+	undecodable            int64
 	logLines               []string // what the driver logged (through ClusterConfig.Logger)
 	receiverSideRecord     bool     // the byte streams were recorded by the peer of a real socket, not by the transport itself
 	afterClose             []string
@@ -181,6 +186,8 @@ type echoNode struct {
 	timers        int64
 	dup           []string
 	splits        int64
+	hugeSent      int64
+	undecodable   int64
 }
 
 func h32(s string, salt int64) uint32 {
@@ -193,6 +200,10 @@ func (en *echoNode) answer(sc *fakenode.ServerConn, req *fakenode.Req, token str
 	payload := fmt.Sprintf("%s|%d", token, req.Header.Stream)
 	if en.cfg.bigFrames && h32(token, 7)%4 == 0 {
 		payload += "|" + strings.Repeat("p", int(h32(token, 8)%40000))
+	}
+	if en.cfg.hugeAnswers && h32(token, 14)%24 == 0 {
+		payload += "|" + strings.Repeat("h", int(1<<20*(1+h32(token, 15)%3)+h32(token, 16)%(1<<20)))
+		atomic.AddInt64(&en.hugeSent, 1)
 	}
 	key := fmt.Sprintf("%s#%d#%d", sc.Node.IP, sc.Index, req.Header.Stream)
 	en.mu.Lock()
@@ -212,6 +223,18 @@ func (en *echoNode) answer(sc *fakenode.ServerConn, req *fakenode.Req, token str
 		return
 	}
 	var err error
+	if late && en.cfg.lateUndecodable && sc.Compressor() == nil && !sc.Control() && h32(token, 13)%2 == 0 {
+		// a complete, well-delimited frame that cannot be decoded: the compression flag without negotiated compression.
+		// It is still the answer to its request - the connection lives on and the stream id comes back.
+		w := cqlref.BodyRows(sc.Version, &cqlref.RowsSpec{Meta: cqlref.Metadata{Global: true, ColCount: 1, Columns: []cqlref.Column{{Keyspace: "e", Table: "e", Name: "v", Type: &cqlref.Type{ID: cqlref.TText}}}}, Rows: [][][]byte{{[]byte(payload)}}})
+		f, _ := cqlref.BuildFrame(sc.Version, req.Header.Stream, cqlref.OpResult, nil, w, nil)
+		f[1] |= 0x01
+		if err = sc.WriteReply(req, f); err == nil {
+			atomic.AddInt64(&en.lateDelivered, 1)
+			atomic.AddInt64(&en.undecodable, 1)
+		}
+		return
+	}
 	if en.cfg.pSplit > 0 && int(h32(token, 11)%100) < en.cfg.pSplit && !sc.Control() {
 		// the answer arrives in two pieces, with a gap longer than the driver's read timeout inside the body
 		w := cqlref.BodyRows(sc.Version, &cqlref.RowsSpec{Meta: cqlref.Metadata{Global: true, ColCount: 1, Columns: []cqlref.Column{{Keyspace: "e", Table: "e", Name: "v", Type: &cqlref.Type{ID: cqlref.TText}}}}, Rows: [][][]byte{{[]byte(payload)}}})
@@ -363,6 +386,9 @@ func classifyErr(err error) string {
 		return "conn-closed"
 	case strings.Contains(s, "EOF"), strings.Contains(s, "closed pipe"), strings.Contains(s, "unable to read frame body"), strings.Contains(s, "injected write failure"), strings.Contains(s, "i/o timeout"), strings.Contains(s, "deadline exceeded"):
 		return "conn-closed"
+	case strings.Contains(s, "no compressor available"):
+		// the (late) answer arrived while the caller was still waiting and could not be decoded: the request ended with it
+		return "undecodable-answer"
 	case strings.Contains(s, "can not marshal"), strings.Contains(s, "cannot marshal"):
 		return "marshal-error"
 	case strings.Contains(s, "no hosts available"), strings.Contains(s, "no host"):
@@ -391,6 +417,7 @@ func runEcho(c *runner.Ctx, ec *echoCfg) *echoResult {
 				f.WriteCutAt = ec.writeCutAt
 				if ec.stallAt > 0 {
 					f.StallWritesAt = ec.stallAt
+					f.StallAtBoundary = ec.stallAtBoundary
 				}
 			}
 			return f
@@ -620,6 +647,8 @@ func runEcho(c *runner.Ctx, ec *echoCfg) *echoResult {
 	}
 	res.lateDelivered = atomic.LoadInt64(&en.lateDelivered)
 	res.splits = atomic.LoadInt64(&en.splits)
+	res.hugeSent = atomic.LoadInt64(&en.hugeSent)
+	res.undecodable = atomic.LoadInt64(&en.undecodable)
 	en.mu.Lock()
 	res.lateReused = en.lateReused
 	res.dupTokens = append(res.dupTokens, en.dup...)
